@@ -57,7 +57,7 @@ PROPS = {
         "jobs": 16, "timeout": {"quick": 1500, "thorough": 5400},
         "level": "model_checking",
         "functions": ["ascent::aggregators::{min,max,sum,count,mean,percentile,not}"],
-        "bounds": "inputs: every multiset of <= 4 values (u8 / i16 over their full range), symbolic length; percentile: length enumerated 0..4 by instantiation, p every integer percent 0..=100 (rank oracle) and every f64 in [0,100] (totality + membership); rank arithmetic additionally on the concrete sorted input 0..50 (thorough: 0..100) with symbolic integer p; unwind 7 / 52 / 102",
+        "bounds": "inputs: every multiset of <= 4 values (u8 / i16 over their full range), symbolic length; percentile: length enumerated 0..4 by instantiation, p every integer percent 0..=100 (rank oracle) and every f64 in [0,100] (totality + membership); rank arithmetic additionally on the concrete sorted input 0..50 (thorough: 0..64; 80 and 100 give no verdict: slice::sort changes strategy above 64 elements) with symbolic integer p; unwind 7 / 52 / 66",
         "stubs": [],
         "assumptions": COMMON_ASSUME + ["sum: precondition 'the mathematical sum fits in the item type' (overflow is outside the property)",
                                        "inputs longer than 4 items are outside the claim"],
@@ -78,19 +78,25 @@ PROPS = {
             "RelIndexType1 merge: at most one entry in delta and one in total in the quick tier, so the size-based swap and the per-key vector swap are exercised only in their 'equal' outcome there (the 2-against-1 harnesses are in the thorough tier)",
         ],
     },
-    "C18X": {
+    "C18": {
         "crate": TABLES, "target": "kani-tables",
-        "patterns": {"quick": ["c18::quick::"], "thorough": ["c18::quick::"]},
-        "min_harnesses": {"quick": 2, "thorough": 2},
-        "jobs": 8, "timeout": {"quick": 1500, "thorough": 3000},
+        "patterns": {"quick": ["c18s::step::find_item_from_any_state_n0", "c18s::step::find_item_from_any_state_n1", "c18s::step::find_item_from_any_state_n2",
+                               "c18s::step::add_from_any_state_n0", "c18s::step::add_from_any_state_n1", "c18s::step::add_from_any_state_n2",
+                               "c18s::step::union_ids_from_any_state_n1", "c18s::step::union_ids_from_any_state_n2", "c18s::step::union_ids_from_any_state_n3",
+                               "c18s::step::find_item_from_any_state_n3", "c18::quick::union_find_two_adds"],
+                     "thorough": ["c18s::step::find_item_from_any_state", "c18s::step::add_from_any_state", "c18s::step::union_ids_from_any_state",
+                                  "c18s::step::union_add_from_any_state_n0", "c18::quick::"]},
+        "min_harnesses": {"quick": 11, "thorough": 14},
+        "jobs": 6, "timeout": {"quick": 1500, "thorough": 3600},
         "extra": ["-Z", "stubbing"], "env": {"RUSTFLAGS": "--cfg ascent_verif"},
         "level": "model_checking",
-        "functions": ["ascent_byods_rels::uf::UnionFind::{add, find_item, find, union, union_add, len, is_empty} and uf::elems::{Elems::find, Elem::union_by_rank}",
-                      "thorough only (no verdict when measured): operation sequences over UnionFind; ascent_byods_rels::trrel_union_find::TrRelUnionFind::{add, contains, set_of, rev_set_of, iter_all, count_exact, assert_disjoint_invariant, assert_set_connections_dominant_sets}"],
-        "bounds": "UnionFind<u8> over 3 elements: (a) two `add`s with symbolic operands, (b) one `union_add` with symbolic operands; afterwards every element / pair is queried. Longer histories (2..4 operations of symbolic kind), and TrRelUnionFind (1..3 `add`s over 2..3 elements) are in the thorough tier and did not produce a verdict when measured (CBMC out of memory at 14 GB resp. no verdict within 600 s). union_find::EqRel is in a private module and is not reachable from a harness crate",
+        "functions": ["ascent_byods_rels::uf::UnionFind::{add, find_item, find, union, union_add, len} and uf::elems::{Elems::find (path halving), Elems::push, Elem::union, Elem::union_by_rank}, every debug_assert! inside them",
+                      "NOT covered: ascent_byods_rels::trrel_union_find::TrRelUnionFind (no harness over it produces a verdict: one `add` over 2 elements from the empty structure has none in 600 s); add_clone / union_add_clone (same bodies as add / union_add up to a clone)"],
+        "bounds": "inductive step: the pre-state is ARBITRARY (hook H4 builds the real UnionFind<u8> from symbolic parent / next / rank / value / item-table contents; the harness assumes the representation invariant `inv` of kani/tables/src/c18s.rs, i.e. Elems::ok made inductive) with N0 elements, N0 = 0..3 (quick tier: `add` only up to 2); ONE real operation with symbolic operands (values < 6, ids < N0); asserted: `inv` again, the partition of the values after the operation, the returned id. Because `inv` is re-established, histories of any length over states of at most that many elements stay inside it. union_add (= add; add; union) is only decided from the empty state (c18s::step::union_add_from_any_state_n0, c18::quick::union_find_one_union; thorough tier): from a non-empty symbolic state it exceeds 35M SAT variables. unwind = elements + 2",
         "stubs": TABLES_STUBS + HEAP_STUBS,
         "assumptions": COMMON_ASSUME + TABLES_ASSUME + [
-            "the quick tier covers single-operation histories only; the property's 'any history' quantifier is NOT discharged beyond that",
+            "representation invariant assumed for the pre-state: pointers in range, parent forest acyclic, ranks strictly increasing towards the root and < class size, `next` = exactly one cycle per class, distinct values, item table maps every value to an id of its own class (kani/tables/src/c18s.rs St::inv); it is asserted for the post-state, so it is inductive for add / find_item / find / union within the bound",
+            "states with more than 3 elements and the TrRelUnionFind half of the property are outside the claim",
         ],
     },
 }
